@@ -446,11 +446,17 @@ def run_check(pid, tier, seed):
         sys.path.insert(0, os.path.join(ROOT, 'layerI'))
         import layerI as LI
         groups, wanted = spec['layerI']
+        partial_ = []
+        if tier == 'thorough' and spec.get('layerI_thorough'):       # heavier / partial theorems: thorough tier only
+            g2, w2 = spec['layerI_thorough']; groups = groups + ',' + g2 if groups else g2; wanted = list(wanted) + list(w2); partial_ = list(w2)
         with Lock('layerI.lock'):
             res = LI.check_layerI(os.path.join(scratch, 'layerI'), src=os.path.join(REPO, 'src'), groups=groups)
         for name, ok_, det_ in res:
             if name in wanted:
-                obligations.append(('layer I: %s translated from the current source equals the model for all inputs (theorem I_%s)' % (name, name), ok_, '' if ok_ else det_))
+                if name in partial_:
+                    obligations.append(('layer I: %s translated from the current source agrees with the model on the stated sub-domain (PARTIAL theorem I_%s_partial, see layerI/REPORT.md)' % (name, name), ok_, '' if ok_ else det_))
+                else:
+                    obligations.append(('layer I: %s translated from the current source equals the model for all inputs (theorem I_%s)' % (name, name), ok_, '' if ok_ else det_))
         missing_ = [w for w in wanted if w not in [r[0] for r in res]]
         if missing_: obligations.append(('layer I: routines %s' % missing_, False, 'not produced by layerI.check_layerI'))
         checker_cmds.append('layerI/rs2v.py --src /repo/src (Rust -> Gallina) ; coqc ImplLib ImplGen ImplCommon ImplTables ImplMul + one file per routine (layerI/layerI.py)')
